@@ -595,6 +595,7 @@ def t_market_init():
                     continue
                 s2.oblige("post:a configured new market satisfies " + l, f, "post")
             s2.oblige("post:chunk size positive", s2.read(m, "chunk_size").term > 0, "post")
+            s2.oblige("post:C07 the settings handed to Market.setup are not written", z3.And(s2.dict_dom(settings) == st.dict_dom(settings), s2.dict_val(settings) == st.dict_val(settings)), "post")
     for s_, k_, v_ in ex.escaped:
         s_.oblige(f"no-raise:{v_[0]}@{v_[1]}", z3.BoolVal(False), "no-raise")
     st.obl.append({"name": "Market.__init__/cover:paths", "pc": [], "goal": z3.BoolVal(n >= 1), "kind": "cover"})
